@@ -45,6 +45,9 @@ deriving Repr, DecidableEq
 inductive Op where
   | sample (dev : Nat)              -- `sample_points(device=dev)`
   | makeStatic (k : Option Nat)     -- `s = s.make_static(k)`
+  | query (kind : Nat)              -- a read-only question: `len(s)`, `bool(s)`, `repr(s)`, `s.is_static`,
+                                    -- `s.is_adaptive`, `iter(s)`, `len()` of a product/concat/append sampler that
+                                    -- contains `s`, constructing a condition that asks for `len(s)` (kind = which one)
 deriving Repr, DecidableEq
 
 /-- `PointSampler.make_static` wraps the plain sampler in a new `StaticSampler` (counter 0, nothing cached);
@@ -75,6 +78,7 @@ def sample (dev : Nat) (w : World) : World × Out :=
 def step (w : World) : Op → World × Option Out
   | .sample d => let r := sample d w; (r.1, some r.2)
   | .makeStatic k => (makeStatic k w, none)
+  | .query _ => (w, none)       -- `StaticSampler.__len__` = `self.length or len(self.sampler)`: no field is written
 
 /-- the world after a history -/
 def exec (w : World) : List Op → World
@@ -101,6 +105,14 @@ def intervalAfter (k0 : Option Nat) : List Op → Option Nat
   | [] => k0
   | .sample _ :: ops => intervalAfter k0 ops
   | .makeStatic k :: ops => intervalAfter k ops
+  | .query _ :: ops => intervalAfter k0 ops
+
+def Op.isQuery : Op → Bool
+  | .query _ => true
+  | _ => false
+
+/-- the history with all read-only questions removed -/
+def eraseQueries (ops : List Op) : List Op := ops.filter (fun o => !o.isQuery)
 
 /-- number of equal elements at the end of a list = how often the last returned set has been returned
     consecutively -/
